@@ -121,6 +121,26 @@ func c17Gen(c *core.Ctx) {
 			}
 		}
 	}
+	// hand-written scenarios (value, following source, the text they stand for)
+	for _, d := range []struct {
+		src   string
+		al    map[string]string
+		plain string
+	}{
+		// a value that ends in an operator and a blank: the following word is examined
+		{"a f", map[string]string{"a": "cat < ", "f": "g"}, "cat < g"},
+		{"a f h", map[string]string{"a": "cat >> ", "f": "g ", "h": "i"}, "cat >> g i"},
+		{"a f", map[string]string{"a": "echo >& ", "f": "2"}, "echo >& 2"},
+		{"a f", map[string]string{"a": "x | ", "f": "g"}, "x | g"},
+		{"a f", map[string]string{"a": "x && ", "f": "g"}, "x && g"},
+		{"a f", map[string]string{"a": "! ", "f": "g"}, "! g"},
+		{"a f; }", map[string]string{"a": "{ ", "f": "g"}, "{ g; }"},
+		{"a c", map[string]string{"a": "b c ", "b": "echo ", "c": "X"}, "echo X X"},
+		{"a c", map[string]string{"a": "b ", "b": "echo", "c": "X"}, "echo X"},
+		{"a c d", map[string]string{"a": "b ", "b": "e ", "e": "echo", "c": "X ", "d": "Y"}, "echo X Y"},
+	} {
+		core.Do(c, c17Case{Src: d.src, Aliases: d.al, Plain: d.plain, Kind: "hand-written"}, c17Exec)
+	}
 	// fixed scenarios: cycles over <=3 names x trailing blanks, the pinned repo scenarios re-derived
 	names := []string{"aa", "bb", "cc"}
 	for mask := 0; mask < 27*8; mask++ {
@@ -285,6 +305,12 @@ func c17Build(p *c17Prog, r *rand.Rand, variant int) (c17Case, bool) {
 				v1 += pick(r, []string{" ", "\t", "  ", " \t", "\t "})
 			}
 			al := map[string]string{"ALIAS_1": v1, "ALIAS_2": t[i+1].Text}
+			if r.IntN(3) == 0 {
+				// the value that ends in a blank consists of another alias (which has no
+				// trailing blank itself): the blank of the outer value still counts
+				al["ALIAS_0"] = t[i].Text
+				al["ALIAS_1"] = "ALIAS_0" + v1[len(t[i].Text):]
+			}
 			// the following word may itself be the head of a chain: replacement is repeated there too
 			last := "ALIAS_2"
 			for d, depth := 0, r.IntN(3); d < depth; d++ {
